@@ -3,6 +3,11 @@ import gfapy
 class SameID:
 
   def _process_not_unique(self, previous):
+    if previous.record_type != self.record_type:
+      raise gfapy.NotUniqueError(
+        "Line: {}\n".format(str(self))+
+        "Line or ID not unique\n"+
+        "Matching previous line: {}".format(str(previous)))
     self._gfa = previous.gfa
     self._initialize_references()
     cur_items = self.get("items")
